@@ -166,4 +166,35 @@ theorem textRichMeasureE_total (guard split : Char → Bool) (h : ∀ c, split c
     simp only [ha, hb, bind, Except.bind]
     exact ⟨_, rfl⟩
 
+theorem splitNLPy_ne_nil : ∀ (s cur : List Char), splitNLPy s cur ≠ []
+  | [], cur => by simp [splitNLPy]
+  | c :: r, cur => by
+    unfold splitNLPy
+    split
+    · simp
+    · exact splitNLPy_ne_nil r (c :: cur)
+
+/-- `text_measure_total` for the code since fix 542a59e (`text.split("\n")`) -/
+theorem textRichMeasureNL_total (guard split : Char → Bool) (h : ∀ c, split c = true → guard c = true) (cw : Char → Nat)
+    (plain : List Char) : ∃ m, textRichMeasureNL guard split cw plain = .ok m := by
+  unfold textRichMeasureNL
+  by_cases hall : plain.all guard = true
+  · simp only [hall, if_true]; exact ⟨_, rfl⟩
+  · simp only [hall, Bool.false_eq_true, if_false]
+    have hex : ∃ c ∈ plain, split c = false := by
+      apply Classical.byContradiction
+      intro hno
+      apply hall
+      rw [List.all_eq_true]
+      intro c hc
+      cases hs : split c with
+      | true => exact h c hs
+      | false => exact absurd ⟨c, hc, hs⟩ hno
+    obtain ⟨a, ha⟩ := pyMax_ok ((splitNLPy plain []).map (cellLen cw))
+      (by simpa using splitNLPy_ne_nil plain [])
+    obtain ⟨b, hb⟩ := pyMax_ok ((splitWords split plain []).map (cellLen cw))
+      (by simpa using splitWords_ne_nil split plain [] (Or.inr hex))
+    simp only [ha, hb, bind, Except.bind]
+    exact ⟨_, rfl⟩
+
 end RichModel.Totality
